@@ -311,7 +311,10 @@ func runCase(t *rapid.T, engine, recName string) {
 	pool.Excluded = &excluded
 	pool.NoDupArgs = known.Active("C08-duplicate-argument-counted-twice")
 	g := gen.NewGrammar(gen.FamHash|gen.FamList|gen.FamSet|gen.FamZSet, gen.FarDurations)
-	sim, err := simkv.New(simkv.Options{Engine: engine})
+	// both data layouts: the versioned one (wait_compact, a clear bumps the key version) and
+	// the plain one (local_deletion, the production default, a clear deletes every member)
+	policy := rapid.SampledFrom([]string{"wait_compact", "local_deletion"}).Draw(t, "policy")
+	sim, err := simkv.New(simkv.Options{Engine: engine, ExpPolicy: policy})
 	if err != nil {
 		t.Fatalf("HARNESS: %v", err)
 	}
@@ -322,7 +325,8 @@ func runCase(t *rapid.T, engine, recName string) {
 	emptied := map[string]bool{}
 	nt := false
 	var labels = map[string]bool{}
-	var canon []string
+	canon := []string{policy}
+	labels["policy:"+policy] = true
 	check := func(fam byte, key string) int {
 		switch fam {
 		case 'h':
